@@ -1927,6 +1927,7 @@ func TestVerifC07Path(t *testing.T) {
 		var pods []*c07PathPod
 		steps := r.Range(3, 9)
 		scheduled := 0
+		memExact, refreshed := true, false
 		schedPod := func(id, cnt int, req c07Vec, podReq corev1.ResourceList) {
 			pod := c07Pod(id, nil, "")
 			pod.Spec.Containers = []corev1.Container{{Name: "c", Resources: corev1.ResourceRequirements{Requests: podReq, Limits: podReq}}}
@@ -2047,12 +2048,26 @@ func TestVerifC07Path(t *testing.T) {
 			if onQuirk {
 				kind = "raw-add" // rests on the known finding: the commit puts an amount on a name the device does not expose
 			}
+			// hypothesis of derived_ratio_fits / derived_bytes_fits: every committed memory pair is EXACT (100 * bytes = ratio * total)
+			for _, a := range g[0] {
+				if T := before.row(0, a.minor).t[1]; a.vec[1] >= 0 && a.vec[2] >= 0 && 100*a.vec[1] != a.vec[2]*T {
+					memExact = false
+				}
+			}
+			if memExact {
+				h.Tag("hyp:memory-pair-exact")
+			} else {
+				h.Tag("hyp:memory-pair-inexact")
+			}
 			// the genuine defect of the memory / memory-ratio pair: fillGPUTotalMem adds the dimension the pod did NOT request
 			// (derived from the other one) after the fit check; it is committed even if the device has less of it free
 			for _, a := range g[0] {
 				row := before.row(0, a.minor)
 				for k := 1; k < c07D; k++ {
 					if req[k] < 0 && a.vec[k] >= 0 && a.vec[k] > row.f[k] && (before.rows[[2]int{0, a.minor}] != nil && before.rows[[2]int{0, a.minor}].tp[k]) {
+						if memExact && !refreshed {
+							h.Fail("C07:derived-overcommit-with-exact-requests", "GPU %d: every committed memory pair so far was exact (100*bytes = ratio*total) and the inventory never changed, yet the derived dimension %d = %d exceeds free %d", a.minor, k, a.vec[k], row.f[k])
+						}
 						h.Fail("C07:derived-memory-dimension-overcommit", "GPU %d: per-GPU request %v fits, but the derived dimension %d = %d committed by fillGPUTotalMem exceeds the free amount %d (total %d, used before %d)", a.minor, req, k, a.vec[k], row.f[k], row.t[k], row.u[k])
 						kind = "raw-add"
 					}
@@ -2226,6 +2241,7 @@ func TestVerifC07Path(t *testing.T) {
 					c.inv[0][i].healthy = !c.inv[0][i].healthy
 				}
 				c.applyInventory(false)
+				refreshed = true
 				h.Tag("op:refresh")
 			}
 		}
